@@ -91,6 +91,12 @@ func init() {
 	register(&PropertyRule{ID: "C16", Explain: "structural necessary conditions of C16 (flow control and size limits): see DESIGN.md §5 C16", Run: func(c *Check) {
 		c16FlowControl(c)
 	}})
+	register(&PropertyRule{ID: "C20", Explain: "structural necessary conditions of C20 (proposal integrity): see DESIGN.md §5 C20", Run: func(c *Check) {
+		c20Proposals(c)
+		c04Noop(c)
+		gStamp(c)
+		c10Gate(c)
+	}})
 	register(&PropertyRule{ID: "C03", Explain: "structural necessary conditions of C03 (log matching): see DESIGN.md §5 C03", Run: func(c *Check) {
 		gTrunc(c)
 		gStable(c)
